@@ -546,12 +546,12 @@ Qed.
 Lemma app_us_inj (a b : chars) : a ++ ["_"%char] = b ++ ["_"%char] -> a = b.
 Proof. apply app_inv_tail. Qed.
 
-(* two values of one enum get the same member name only in the class/class_ shape *)
+(* two values of one enum get the same member name only in the shape  r / r_  with r a renamed value *)
 Theorem enum_member_collision a b : enum_member a = enum_member b -> a <> b ->
-  (iskeyword a = true /\ b = a ++ ["_"%char]) \/ (iskeyword b = true /\ a = b ++ ["_"%char]).
+  (enum_renamed a = true /\ b = a ++ ["_"%char]) \/ (enum_renamed b = true /\ a = b ++ ["_"%char]).
 Proof.
   unfold enum_member, suffix_if. intros H Hne.
-  destruct (iskeyword a) eqn:Ka, (iskeyword b) eqn:Kb.
+  destruct (enum_renamed a) eqn:Ka, (enum_renamed b) eqn:Kb.
   - apply app_us_inj in H. contradiction.
   - left. split; [reflexivity | symmetry; exact H].
   - right. split; [reflexivity | exact H].
@@ -559,7 +559,11 @@ Proof.
 Qed.
 
 Theorem enum_member_not_keyword v : iskeyword (enum_member v) = false.
-Proof. apply step2_not_keyword. Qed.
+Proof.
+  unfold enum_member, suffix_if. destruct (enum_renamed v) eqn:E.
+  - apply suffix_not_keyword.
+  - unfold enum_renamed in E. apply orb_false_iff in E as [E _]. apply orb_false_iff in E as [E _]. exact E.
+Qed.
 
 Theorem enum_member_keeps_value v : filter is_alnum (enum_member v) = filter is_alnum v.
 Proof. apply filter_alnum_suffix. Qed.
